@@ -11,6 +11,11 @@ CHECKS = {
         technique="translation validation: symbolic execution of the emitted TEAL (SymAVM on z3) vs recipe reference semantics, one SMT obligation per path pair, counterexamples replayed concretely",
         text="For every enumerated program (operator sweep, control skeletons, environment/state/inner-transaction programs, seeded random programs in the thorough tier) at every version/mode where it compiles, z3 shows that the emitted TEAL and the reference semantics of the recipe agree on verdict, return value and ordered effects for ALL inputs within the stated bounds (loop iterations, recursion depth, byte-string lengths). Programs are enumerated to a bound; inputs are symbolic.",
         note="Trusted: TEAL op semantics in verif/avm (shared by both sides for primitive operators), recipe semantics in verif/recipe/ref.py, z3. Bounds: loop iterations K, call depth D, listed byte lengths; crypto ops uninterpreted; opcode budget not modelled."),
+    "C16": dict(
+        category="other", design_ref="DESIGN.md 3/C16",
+        technique="SMT (z3 nonlinear integer arithmetic) Hoare contracts over segments of the emitted WideRatio TEAL at full 64-bit width + whole-program bit-vector equivalence at narrow word widths; models replayed on the emitted code",
+        text="For every (|N|,|D|) in 1..6 x 1..6 the emitted op stream is cut at the factor pushes and z3 (NIA, full 64-bit width, all factor values, arbitrary stack below) proves each segment's contract: first segment establishes hi*2^64+lo = a*b, each step segment fails iff the running product reaches 2^128 and otherwise extends it exactly, the final segment fails iff the denominator is 0 or the quotient needs more than 64 bits and otherwise leaves floor(N/D). Chaining over the number of factors is an ordinary induction that is written out, not mechanised. Whole emitted programs are additionally proved equivalent to the specification over bit-vectors at narrow word widths.",
+        note="Trusted: z3 NIA; TEAL semantics of the dozen ops involved (verif/checks/c16.py); the induction over segments. Factors are template constants; factor sub-expressions are C01's business."),
 }
 
 NOT_APPLICABLE = {
